@@ -117,7 +117,7 @@ func runSelftest(kind, prop string, seed int64) int {
 	if v := os.Getenv("VERIF_SELFTEST_SEEDS"); v != "" {
 		fmt.Sscan(v, &nSeeds)
 	}
-	total, diverged := 0, 0
+	total, diverged, crossBuild := 0, 0, 0
 	for _, id := range propsToTest {
 		pc, err := getProp(id)
 		if err != nil || pc.custom != nil {
@@ -185,9 +185,51 @@ func runSelftest(kind, prop string, seed int64) int {
 				}
 			}
 		}
+		// Cross-build: the same cases of the first world in a runner binary built for that world
+		// alone (as ./verif replay builds it) must give the same event-log hashes as in the
+		// batch binary: anything that depends on the binary (protobuf's detrand) shows up here.
+		if live := b.Live(); len(live) > 0 {
+			first := live[0].Spec
+			sb, err := world.NewBatch([]*spec.World{first}, world.Options{Passes: pc.passes, SkipTS: !pc.needTS})
+			if err == nil {
+				if pc.needTS {
+					world.AdmitTS(sb)
+				}
+				var sjobs []*job
+				skey := map[*job]key{}
+				for _, bw := range sb.Live() {
+					for _, mode := range pc.modes {
+						for s := 0; s < nSeeds; s++ {
+							rs := uint64(1000 + 97*s + int(seed))
+							j := &job{world: bw, mode: mode, checks: 20, rseed: rs, procs: "1",
+								out: filepath.Join(scratch, fmt.Sprintf("x-%s-%s-%d.json", bw.Spec.Name, mode, s))}
+							sjobs = append(sjobs, j)
+							skey[j] = key{bw.Spec.Name, mode, rs}
+						}
+					}
+				}
+				runJobs(sb, id, sjobs, knownSigs, append(pc.extraEnv(sb), "VERIF_LOGHASHES=1"), 16, 10*time.Minute)
+				for _, j := range sjobs {
+					k := skey[j]
+					ref := byKey[k]
+					if len(ref) == 0 || ref[0].res == nil {
+						continue
+					}
+					total++
+					crossBuild++
+					if j.res == nil || fmt.Sprint(j.res.LogHashes) != fmt.Sprint(ref[0].res.LogHashes) {
+						fmt.Printf("selftest: DIVERGENCE (cross-build) property=%s world=%s mode=%s rapid_seed=%d: batch binary and single-world binary give different event logs\n", id, k.w, k.mode, k.rs)
+						diverged++
+					}
+				}
+			}
+			if sb != nil {
+				sb.Close()
+			}
+		}
 		b.Close()
 		os.RemoveAll(scratch)
-		fmt.Printf("selftest determinism: property=%s cases=%d (x4 processes each, GOMAXPROCS 1/4/16/1)\n", id, len(byKey))
+		fmt.Printf("selftest determinism: property=%s cases=%d (x4 processes each, GOMAXPROCS 1/4/16/1), cross-build cases so far=%d\n", id, len(byKey), crossBuild)
 	}
 	// sources of nondeterminism that must not appear in the harness runtime
 	out, _ := exec.Command("grep", "-rn", "--include=*.go", `\.Range(`, filepath.Join(world.VerifDir, "simrt")).CombinedOutput()
